@@ -357,6 +357,10 @@ C10_PROGS = [
     (["R GET /q/{x}", "R GET /q/r/?s", "H 1 X-K=v"], "GET", 6),
     (["R * /z", "R GET /{x}", "H 0 X-K=v", "H 0 "], "?", 2),
     (["R GET /?r", "R GET /{x}/{y}"], "GET", 4),
+    (["R GET /q/?r", "R GET /q/r"], "GET", 5),            # D14: a static route shadowed by an earlier optional-static one
+    (["R GET /q/r", "R GET /q/?r"], "GET", 5),
+    (["R GET /q/?r", "R GET /q/r", "H 0 X-K=v"], "GET", 5),
+    (["R GET /a/?", "R GET /a/"], "GET", 4),
 ]
 
 
